@@ -212,6 +212,57 @@ print('OBS ' + json.dumps(dict(same_f=F is f, same_g=G is g, enabled=profile.ena
 '''
 
 
+KP_SETUP = '''
+import json
+import line_profiler
+from line_profiler import profile
+CFG = json.loads(%(cfg)r)
+if CFG['how'] == 'enable':
+    profile.enable(output_prefix=CFG['prefix'])
+def setup_helper(x):
+    return x + 3
+H = profile(setup_helper)
+H(1)
+profile.write_config.update(CFG['wc'])
+print('OBS ' + json.dumps(dict(same_h=H is setup_helper, impl=line_profiler.__file__)))
+'''
+KP_SCRIPT = '''
+@profile
+def script_func(n):
+    return n * 2
+script_func(3)
+'''
+
+
+def run_sub_kernprof(case, tmp):
+    """python -m kernprof -l -s setup.py script.py: the setup file asks for explicit profiling (enable(), or a
+    decoration under LINE_PROFILE / --line-profile); what appears at interpreter exit?"""
+    import json
+    d = tempfile.mkdtemp(prefix='c14kp_', dir=tmp)
+    try:
+        with open(os.path.join(d, 'setup_code.py'), 'w') as fh:
+            fh.write(KP_SETUP % dict(cfg=json.dumps(dict(how=case['how'], prefix=case.get('prefix'), wc=case['wc']))))
+        with open(os.path.join(d, 'script.py'), 'w') as fh:
+            fh.write(KP_SCRIPT)
+        env = dict(os.environ)
+        env.pop('LINE_PROFILE', None)
+        if case['env'] is not None:
+            env['LINE_PROFILE'] = case['env']
+        p = subprocess.run([sys.executable, '-m', 'kernprof', '-l', '-s', 'setup_code.py', 'script.py'] + case['args'], cwd=d, env=env,
+                           stdout=subprocess.PIPE, stderr=subprocess.PIPE, text=True, timeout=120)
+        obs = None
+        for line in p.stdout.splitlines():
+            if line.startswith('OBS '):
+                obs = json.loads(line[4:])
+        names = [n for n in list_files(d) if n not in ('setup_code.py', 'script.py', 'script.py.lprof') and not n.startswith('__pycache__')]
+        prefix = case['prefix'] if case['how'] == 'enable' else 'profile_output'
+        seen, ts = classify_outputs(prefix, names, p.stdout)
+        return dict(rc=p.returncode, obs=obs, seen=seen, ts=ts, prefix=prefix, kernprof_out=os.path.exists(os.path.join(d, 'script.py.lprof')),
+                    traceback=('Traceback' in p.stderr or 'Exception ignored' in p.stderr), stderr=p.stderr[-400:])
+    finally:
+        shutil.rmtree(d, ignore_errors=True)
+
+
 def run_sub(case, tmp):
     import json
     d = tempfile.mkdtemp(prefix='c14sub_', dir=tmp)
@@ -250,7 +301,8 @@ def main():
     EP.atexit = real_atexit
     with ThreadPoolExecutor(max_workers=8) as ex:
         sub = list(ex.map(lambda c: run_sub(c, tmp), payload.get('sub', [])))
-    emit(dict(hist=hist, show=show, sub=sub))
+        subkp = list(ex.map(lambda c: run_sub_kernprof(c, tmp), payload.get('subkp', [])))
+    emit(dict(hist=hist, show=show, sub=sub, subkp=subkp))
 
 
 if __name__ == '__main__':
